@@ -15,7 +15,7 @@ ROOT = "/verif/seeded"
 
 
 def sh(cmd, cwd=None, timeout=7200):
-    return subprocess.run(cmd, shell=True, cwd=cwd, env=ENV, stdout=subprocess.PIPE, stderr=subprocess.STDOUT, text=True, timeout=timeout)
+    return subprocess.run(cmd, shell=True, cwd=cwd, env=ENV, stdout=subprocess.PIPE, stderr=subprocess.STDOUT, text=True, errors="replace", timeout=timeout)
 
 
 def load(sid):
